@@ -62,6 +62,9 @@ type rCase struct {
 	// Log: router world — recovery logs (recovery.WithLogger, a handler that formats every record and
 	// throws it away) instead of recovery.WithoutLogging
 	Log bool `json:"log,omitempty"`
+	// Stack: with Log — 0 = default stack capture; 1 = WithStackTrace(false); n >= 2: WithStackSize(n-2)
+	// (0, 8, 16 bytes: smaller than the first line of any trace)
+	Stack int `json:"stack,omitempty"`
 }
 
 // recoveryHandler is a custom response handler for recovery.WithHandler: the same document as the
@@ -100,7 +103,13 @@ func buildR(c rCase) (*cx.World, error) {
 	} else {
 		ropts := []recovery.Option{recovery.WithoutLogging()}
 		if c.Log {
-			ropts = []recovery.Option{recovery.WithLogger(slog.New(slog.NewTextHandler(io.Discard, nil)))}
+			ropts = []recovery.Option{recovery.WithLogger(slog.New(slog.NewTextHandler(io.Discard, nil))), recovery.WithPrettyStack(false)}
+			switch {
+			case c.Stack == 1:
+				ropts = append(ropts, recovery.WithStackTrace(false))
+			case c.Stack >= 2:
+				ropts = append(ropts, recovery.WithStackSize(c.Stack-2))
+			}
 		}
 		if c.RecH {
 			ropts = append(ropts, recovery.WithHandler(recoveryHandler))
@@ -148,6 +157,14 @@ func emitR(id string, c rCase, st *hx.Stats) string {
 	// follow-ups on the same router: the same route with every handler passing through, then a plain route
 	f1 := serve(main, &cx.ReqState{Probe: true})
 	f2 := serve(ok, &cx.ReqState{Beh: map[int][]cx.Act{okHid: {{K: "W"}}}})
+	if c.App && w.App != nil && !cx.ReadinessAlive(w.App) {
+		// a component registering a readiness gate later in the life of the application hangs: later requests
+		// (every probe, every handler that checks readiness) are not served any more
+		f2.Escaped = 9
+		if st != nil {
+			st.Count("R_app_readiness_hangs_after_the_request")
+		}
+	}
 	l.Nat(2)
 	cx.EncResult(l, f1)
 	cx.EncResult(l, f2)
@@ -185,6 +202,9 @@ func emitR(id string, c rCase, st *hx.Stats) string {
 		}
 		if c.Log && !c.App {
 			st.Count("R_router_recovery_logging_on")
+			if c.Stack > 0 {
+				st.Count("R_router_recovery_stack_option")
+			}
 		}
 		if c.Fmt && c.App {
 			st.Count("R_app_error_formatter_with_status_resolver")
@@ -282,6 +302,9 @@ func genR(r *hx.Rand, st *hx.Stats) rCase {
 		c.Wrap = r.Chance(1, 4)
 		c.RecH = r.Chance(1, 3)
 		c.Log = r.Chance(1, 2)
+		if c.Log && r.Chance(1, 2) {
+			c.Stack = hx.Pick(r, []int{1, 2, 10, 18, 66, 4098})
+		}
 	} else {
 		c.Obs = r.Chance(1, 2)
 		c.Fmt = r.Chance(1, 3)
@@ -342,6 +365,9 @@ type tCase struct {
 	Fmtf bool `json:"fmtf,omitempty"`
 	Gate bool `json:"gate,omitempty"`
 	Conc bool `json:"conc,omitempty"`
+	// Hdr: the timed chain never writes, but its first handler sets headers that describe a body
+	// (Content-Length, Content-Encoding) before anything else happens
+	Hdr bool `json:"hdr,omitempty"`
 }
 
 type tWrap struct {
@@ -416,6 +442,7 @@ type tState struct {
 	waitH      bool
 	hold       time.Duration
 	fmtf, gate bool
+	hdr        bool
 	tIn        atomic.Bool   // the timeout handler has been entered
 	tInWrite   chan struct{} // gate: the timeout response is inside the writer's Write
 	gateOnce   sync.Once
@@ -497,6 +524,10 @@ func (s *tState) goH() { s.hGoOnce.Do(func() { close(s.hGo) }) }
 func tBracket(c *router.Context) {
 	s := c.Request.Context().Value(tKey{}).(*tState)
 	s.reqCtx = c.Request.Context()
+	if s.hdr {
+		c.Response.Header().Set("Content-Length", "3")
+		c.Response.Header().Set("Content-Encoding", "gzip")
+	}
 	s.hStarted.Store(true)
 	defer func() {
 		s.goH()
@@ -612,7 +643,7 @@ type tObs struct {
 
 func runT(c tCase) tObs {
 	s := &tState{tEntered: make(chan struct{}), tWritten: make(chan struct{}), hGo: make(chan struct{}), returned: make(chan struct{}),
-		hExit: make(chan struct{}), prog: c.Prog, waitH: c.WaitH, fmtf: c.Fmtf, gate: c.Gate && c.WaitH && c.Custom, conc: c.Conc,
+		hExit: make(chan struct{}), prog: c.Prog, waitH: c.WaitH, fmtf: c.Fmtf, gate: c.Gate && c.WaitH && c.Custom, conc: c.Conc, hdr: c.Hdr && !c.writes(),
 		tInWrite: make(chan struct{}), bInside: make(chan struct{}), aDone: make(chan struct{}), bDone: make(chan struct{})}
 	r := router.MustNew()
 	s.router = r
@@ -708,6 +739,10 @@ func runT(c tCase) tObs {
 	o.Recovered = s.recovered.Load()
 	o.Status = rec.Code
 	o.Body = cx.ParseBody(rec.Body.Bytes())
+	// well-formed also means: the headers describe the body that was sent
+	if cl := rec.Header().Get("Content-Length"); cl != "" && cl != strconv.Itoa(rec.Body.Len()) || rec.Header().Get("Content-Encoding") != "" {
+		o.Body = append(o.Body, cx.OtherChunk)
+	}
 	// follow-up on the same router
 	rec2 := httptest.NewRecorder()
 	func() {
@@ -731,6 +766,18 @@ func runT(c tCase) tObs {
 		}
 	}
 	return o
+}
+
+// writes reports whether any handler of the timed chain writes a response.
+func (c tCase) writes() bool {
+	w := hasAct(c.Prog, "W")
+	if c.Wrap != nil {
+		w = w || hasAct(c.Wrap.Pre, "W") || hasAct(c.Wrap.Post, "W")
+	}
+	for _, t := range c.Tail {
+		w = w || hasAct(t, "W")
+	}
+	return w
 }
 
 func hasAct(prog []string, x string) bool {
@@ -801,6 +848,7 @@ func genT(r *hx.Rand, st *hx.Stats) (c tCase) {
 	c = tCase{Kind: "T", Pre: r.Intn(2)}
 	defer func() {
 		c.Fmtf = r.Chance(1, 3)
+		c.Hdr = !c.writes() && r.Chance(1, 2)
 		c.Gate = c.WaitH && c.Custom && hasAct(c.Prog, "sH") && r.Chance(1, 2)
 		for _, a := range c.Prog {
 			if strings.HasPrefix(a, "P") && r.Chance(1, 3) {
@@ -816,6 +864,9 @@ func genT(r *hx.Rand, st *hx.Stats) (c tCase) {
 			}
 			if c.Conc {
 				st.Count("T_second_request_in_flight_during_recovery")
+			}
+			if c.Hdr {
+				st.Count("T_chain_sets_body_headers_without_writing")
 			}
 		}
 	}()
@@ -1175,6 +1226,10 @@ func fixedR() []rCase {
 		// a panic value whose Error method panics itself (typed nil), recovery logging on
 		{Kind: "R", Check: true, Log: true, Chain: []cx.Beh{{H: 1, Acts: []cx.Act{p(cx.TypedNilPanic)}}}},
 		{Kind: "R", Check: true, App: true, Global: 1, Chain: []cx.Beh{{H: 1, Acts: a("N")}, {H: 2, Acts: []cx.Act{{K: "W"}, p(cx.TypedNilPanic)}}}},
+		// recovery.WithStackSize(0): the captured stack is cut to nothing
+		{Kind: "R", Check: true, Log: true, Stack: 2, Chain: []cx.Beh{{H: 1, Acts: []cx.Act{p(1)}}}},
+		// the panic comes out of app.Readiness().Check() (a gate whose Ready method panics)
+		{Kind: "R", Check: true, App: true, Chain: []cx.Beh{{H: 1, Acts: []cx.Act{p(cx.GatePanic)}}}},
 		// through the timeout middleware's goroutine
 		{Kind: "R", Check: true, Wrap: true, Global: 1, Chain: []cx.Beh{{H: 1, Acts: []cx.Act{{K: "N"}, p(0)}}, {H: 2, Acts: []cx.Act{p(4)}}}},
 	}
@@ -1200,6 +1255,9 @@ func fixedT() []tCase {
 		// a second request is in flight while recovery handles the panic that followed the timeout response
 		{Kind: "T", Custom: true, Conc: true, Prog: []string{"D", "aC", "aE", "aT", "P0"}},
 		{Kind: "T", Conc: true, Prog: []string{"W", "P1"}},
+		// the chain sets Content-Length / Content-Encoding, writes nothing, runs into the deadline
+		{Kind: "T", Custom: true, Hdr: true, Prog: []string{"D", "aC", "aE", "aT"}},
+		{Kind: "T", Hdr: true, Prog: []string{"P0"}},
 	}
 }
 
